@@ -97,6 +97,7 @@ theorem step_names (l : Bool) (s : State) (op : Op) (hu : isUnreg op = false) :
   | lookup n => left; rfl
   | lookupPid a => left; rfl
   | waitRet a => left; rfl
+  | drain a => left; simp only [step]; split <;> (try rfl); split <;> rfl
 
 theorem step_obs_register_ok {l : Bool} {s : State} {op : Op} {n : Nat}
     (h : isWin n (op, (step l s op).2) = true) :
@@ -224,6 +225,10 @@ theorem noNamedProxy_step (l : Bool) (s : State) (op : Op) (h : noNamedProxy s)
   | lookup n => exact h
   | lookupPid a => exact h
   | waitRet a => exact h
+  | drain a =>
+    simp only [step]; split; exact h; split
+    · exact noNamedProxy_setA' (fun x => ⟨rfl, rfl⟩) h
+    · exact h
 
 theorem noNamedProxy_run (l : Bool) (ops : List Op) (s : State) (h : noNamedProxy s)
     (hop : noNamedRemoteProxy ops = true) : noNamedProxy (run l s ops) := by
@@ -295,6 +300,12 @@ theorem actor_persist (l : Bool) (s : State) (op : Op) (a : Nat)
   | lookup n => exact ⟨x, hx, h1, h2⟩
   | lookupPid b => exact ⟨x, hx, h1, h2⟩
   | waitRet b => exact ⟨x, hx, h1, h2⟩
+  | drain b =>
+    simp only [step]; split
+    · exact ⟨x, hx, h1, h2⟩
+    · split
+      · exact hset s b _ rfl (fun y => ⟨rfl, rfl⟩)
+      · exact ⟨x, hx, h1, h2⟩
 
 theorem actor_persist_run (l : Bool) (ops : List Op) (s : State) (a : Nat)
     (h : ∃ x ∈ s.actors, x.id = a ∧ x.remote = false) :
@@ -344,6 +355,7 @@ theorem pidEvents_actor (l : Bool) (s : State) (op : Op) (e : Bool × Nat) (he :
   | lookup n => cases he
   | lookupPid a => cases he
   | waitRet a => cases he
+  | drain a => cases he
 
 theorem runEvents_actor (l : Bool) (ops : List Op) (s : State) (e : Bool × Nat)
     (he : e ∈ runEvents l s ops) : ∃ x ∈ (run l s ops).actors, x.id = e.2 ∧ x.remote = false := by
